@@ -61,6 +61,7 @@ TObs ==
   /\ l <= Len(Rec) /\ Ev.ev = "obs" /\ ppc = "done" /\ result \in {"OkFormatted", "OkUnformatted"}
   /\ Ev.ret.kind = "ok"
   /\ Has(Ev, "ref_tokens_sha") /\ Ev.tokens_sha = Ev.ref_tokens_sha
+  /\ ~Has(Ev, "zombie")     \* the parent reached "done" through PWait: no child process is left behind unreaped
   /\ Keep /\ Consume
 
 TNext == TCase \/ TSilent \/ TSpawned \/ TWritten \/ TWait \/ TFormatted \/ TFallback \/ TOtherPhase \/ TObs
